@@ -37,6 +37,8 @@ def find_inertia(rm, rp):
 
 
 def check(model, rep):
+    from checks.solver_common import absorb_arith, TIME_ARITH, EULER_ARITH, KIN_ARITH, TORQUE_ARITH
+    absorb_arith(model, rep, 'C03.dep.arith', EULER_ARITH + TIME_ARITH)
     rep.explain('C03: on the solver IR: the inertia loop is recognised by its loop-carried quantity; its initial value, '
                 'recurrence term, index set {1..n-1} ascending and position before the first instant on every run path are '
                 'compared with the documented reduction; the acceleration of E[n-1] must be net torque / that folded inertia, '
@@ -194,6 +196,15 @@ def check(model, rep):
     dep = Report('C13')
     c13.check(model, dep)
     rep.absorb(dep, {'C13.lock-table': 'C03.hold.lock-table', 'C13.only-if': 'C03.hold.only-if'})
+    # "between two consecutive instants dt apart": the recorded instants must be the integrator's dt apart (C11's grid rule),
+    # and the hold state must not leak from an earlier schedule (C12's fresh-start initialisation of solver state)
+    from checks import c11, c12
+    dep = Report('C11')
+    c11.check(model, dep)
+    rep.absorb(dep, {'C11.grid': 'C03.euler.grid'})
+    dep = Report('C12')
+    c12.check_run(model, dep)
+    rep.absorb(dep, {'C12.state': 'C03.hold.state', 'C12.unit': 'C03.euler.grid.unit'})
     rep.analysed.update({'run_paths': len(rm.paths), 'instant_contexts': len(ins), 'time_params': params})
     rep.require('C03.inertia', 4)
     rep.require('C03.eom', 2)
